@@ -468,12 +468,15 @@ func genTreeRT(r *rand.Rand, id int) *Tree {
 			o.Kind, o.VType = "slice", pick(r, []string{"string", "string", "int", "float64"})
 		case k < 82:
 			o.Kind, o.VType = "map", pick(r, []string{"string", "string", "int"})
+			if chance(r, 0.3) {
+				o.KType = "int"
+			}
 		case k < 95:
 			o.Kind, o.VType = "ptr", pick(r, []string{"string", "int", "string"})
 		default:
 			o.Kind, o.VType = "counter", "bool"
 		}
-		if isIntType(o.VType) && chance(r, 0.3) {
+		if (isIntType(o.VType) || o.KType != "") && chance(r, 0.3) {
 			o.Base = pick(r, []int{16, 2, 36})
 		}
 		if chance(r, 0.15) {
@@ -507,6 +510,9 @@ func genTreeRT(r *rand.Rand, id int) *Tree {
 				seen := map[string]bool{}
 				for i, m := 0, r.Intn(4); i < m; i++ {
 					k := pick(r, rtKeys)
+					if o.KType != "" {
+						k = pick(r, []string{"1", "2", "9", "10", "11", "100", "-3", "0"})
+					}
 					if seen[k] {
 						continue
 					}
@@ -535,7 +541,9 @@ func genTreeRT(r *rand.Rand, id int) *Tree {
 				if strings.ContainsAny(v, "\xff\x00") {
 					v = "dflt"
 				}
-				if o.Kind == "map" {
+				if o.Kind == "map" && o.KType != "" {
+					v = pick(r, []string{"1", "10"}) + ":" + v
+				} else if o.Kind == "map" {
 					v = pick(r, []string{"k", "dk"}) + ":" + v
 				}
 				o.Defaults = append(o.Defaults, v)
@@ -544,13 +552,19 @@ func genTreeRT(r *rand.Rand, id int) *Tree {
 				o.Init = nil
 				for _, d := range o.Defaults {
 					dv := d
-					if isIntType(o.VType) {
+					if isIntType(o.VType) || o.KType != "" {
 						k, v := "", d
 						if o.Kind == "map" {
 							k, v = splitKV(d)
+							if o.KType != "" {
+								k = canonInt(k, o.Base)
+							}
 							k += ":"
 						}
-						dv = k + canonInt(v, o.Base)
+						if isIntType(o.VType) {
+							v = canonInt(v, o.Base)
+						}
+						dv = k + v
 					}
 					if o.VType == "float64" || o.VType == "duration" || o.VType == "um" {
 						o.Init = nil
